@@ -450,6 +450,56 @@ pub fn run(tier: &str, root: &Path) -> Value {
         seen_stage_cfgs += c;
         stage_desc.push(json!({"max_targets": b.max_t, "uses_entries": b.k_u, "ignores_entries": b.k_i, "all_orders_up_to": b.perm_t, "configurations": c, "complete": true}));
     }
+    // shared entries: the same uses (or ignores) entry listed by two or by all targets, alone and
+    // combined with one ignores (or uses) entry
+    {
+        let tsets = subsets(&D, 2, 3);
+        let count = std::sync::atomic::AtomicU64::new(0);
+        tsets.par_iter().for_each(|tset| {
+            let nt = tset.len();
+            let mut groups: Vec<Vec<usize>> = vec![(0..nt).collect()];
+            if nt == 3 {
+                groups.extend(vec![vec![0, 1], vec![0, 2], vec![1, 2]]);
+            }
+            // the extra entry of the other kind only for two-target sets (keeps the family small)
+            let singles = if nt == 2 { entry_sets(nt, &entries, 1) } else { vec![vec![]] };
+            for e in &entries {
+                for g in &groups {
+                    for shared_is_uses in [true, false] {
+                        for other in &singles {
+                            let mut base: Vec<Tgt> = tset.iter().map(|p| Tgt::new(p)).collect();
+                            for &ti in g {
+                                if shared_is_uses {
+                                    base[ti].uses.push(e.to_string());
+                                } else {
+                                    base[ti].ignores.push(e.to_string());
+                                }
+                            }
+                            for (ti, o) in other {
+                                if shared_is_uses {
+                                    base[*ti].ignores.push(o.clone());
+                                } else {
+                                    base[*ti].uses.push(o.clone());
+                                }
+                            }
+                            let cfg = Cfg { targets: base };
+                            count.fetch_add(1, std::sync::atomic::Ordering::Relaxed);
+                            rep.eval(chs.len() as u64 + 4);
+                            if feature_nontrivial(&cfg, &chs) {
+                                rep.nontrivial(1);
+                            }
+                            for (sig, detail, extra) in check_cfg(&cfg, root, &chs, true) {
+                                rep.violation(&sig, 9_000_000 + (nt as u64) * 100_000, json!({"config": cfg.to_value(), "input": extra}), detail);
+                            }
+                        }
+                    }
+                }
+            }
+        });
+        let c = count.load(std::sync::atomic::Ordering::Relaxed);
+        seen_stage_cfgs += c;
+        stage_desc.push(json!({"family": "one entry shared by two or all targets (as uses or as ignores) x at most one entry of the other kind", "configurations": c, "complete": true}));
+    }
     // batching sweep on a fixed feature set of configurations
     let feature_cfgs = batching_cfgs();
     feature_cfgs.par_iter().enumerate().for_each(|(k, cfg)| {
